@@ -248,3 +248,84 @@ theorem start_inv (L : Lits K) (S : Setup K) (s : State K) (h : start L S = .inl
 
 end
 end BdfCtl
+
+/-! ### C11: the step of every pass is at most `h_max`, apart from the ≤ 1 % stretch of the landing step -/
+namespace BdfCtl
+noncomputable section
+variable {K : Type} [Field K] [LinearOrder K] [IsStrictOrderedRing K] [SqrtPow K]
+
+/-- the step `limits` hands to the pass: `x_new − x = h_signed`, `|h_signed| ≤ h_max` unless the step was stretched /
+    shortened to land on `xend`, and then `|h_signed| = |xend − x| < stretch · h_max` -/
+theorem limits_le_hmax (L : Lits K) (P : Params K) (s : State K) (hd : P.direction * P.direction = 1) (hz : L.zero = 0)
+    (hst : 1 ≤ L.stretch) (hi : Inv P s) (hh : 0 < s.h) (hmm : P.hmin ≤ P.hmax) (hmax : 0 < P.hmax)
+    (s' : State K) (hS xN : K) (hl : limits L P s = .inl (s', hS, xN)) :
+    xN = s.x + hS ∧ |hS| ≤ L.stretch * P.hmax ∧ (|hS| ≤ P.hmax ∨ xN = P.xend) := by
+  have habs : ∀ a : K, |P.direction * a| = |a| := by
+    intro a
+    have hd1 : P.direction = 1 ∨ P.direction = -1 := by
+      have : (P.direction - 1) * (P.direction + 1) = 0 := by ring_nf; linarith
+      rcases mul_eq_zero.mp this with h | h
+      · left; linarith
+      · right; linarith
+    rcases hd1 with h | h <;> simp [h]
+  unfold limits at hl
+  dsimp only at hl
+  -- the clamped step size
+  generalize hs1 : (if s.h > P.hmax then ({ s with h := P.hmax, nEqual := 0, luCurrent := false } : State K) else s) = s1 at hl
+  have h1x : s1.x = s.x := by rw [← hs1]; split <;> rfl
+  have h1h : 0 < s1.h ∧ s1.h ≤ P.hmax := by
+    rw [← hs1]; split
+    · exact ⟨hmax, le_refl _⟩
+    · rename_i hgt; exact ⟨hh, not_lt.mp hgt⟩
+  split at hl
+  · cases hl
+  generalize hs2 : (if s1.h < P.hmin ∧ P.hmin > L.zero then ({ s1 with h := P.hmin, nEqual := 0, luCurrent := false } : State K) else s1) = s2 at hl
+  have h2x : s2.x = s.x := by rw [← hs2]; split <;> simpa using h1x
+  have h2h : 0 < s2.h ∧ s2.h ≤ P.hmax := by
+    rw [← hs2]; split
+    · rename_i hc; rw [hz] at hc; exact ⟨hc.2, hmm⟩
+    · exact h1h
+  split at hl
+  · rename_i hov
+    split at hl
+    · cases hl
+    · -- landing
+      injection hl with hl
+      have e1 : s' = { s2 with h := s2.h * (Num.abs (P.xend - s2.x) / s2.h), nEqual := 0, luCurrent := false } := by
+        have := congrArg Prod.fst hl; exact this.symm
+      have e2 : hS = P.direction * (s2.h * (Num.abs (P.xend - s2.x) / s2.h)) := by
+        have := congrArg (fun t => t.2.1) hl; exact this.symm
+      have e3 : xN = s2.x + P.direction * (s2.h * (Num.abs (P.xend - s2.x) / s2.h)) := by
+        have := congrArg (fun t => t.2.2) hl; exact this.symm
+      have hne : s2.h ≠ 0 := ne_of_gt h2h.1
+      have hmul : s2.h * (Num.abs (P.xend - s2.x) / s2.h) = |P.xend - s2.x| := by rw [num_abs]; field_simp
+      have hov' : P.direction * (s2.x + L.stretch * (P.direction * s2.h) - P.xend) > 0 := by simpa [hz] using hov
+      have hexp : P.direction * (s2.x + L.stretch * (P.direction * s2.h) - P.xend)
+          = P.direction * (s2.x - P.xend) + L.stretch * s2.h := by
+        have : P.direction * (L.stretch * (P.direction * s2.h)) = (P.direction * P.direction) * (L.stretch * s2.h) := by ring
+        rw [mul_sub, mul_add, this, hd]; ring
+      have hinv2 : P.direction * (s2.x - P.xend) ≤ 0 := by rw [h2x]; exact hi
+      -- |xend − x| = direction · (xend − x) < stretch · h
+      have hdist : |P.xend - s2.x| = P.direction * (P.xend - s2.x) := by
+        have h0 : 0 ≤ P.direction * (P.xend - s2.x) := by nlinarith
+        have : |P.direction * (P.xend - s2.x)| = |P.xend - s2.x| := habs _
+        rw [← this, abs_of_nonneg h0]
+      have hlt : |P.xend - s2.x| < L.stretch * s2.h := by
+        rw [hdist]; rw [hexp] at hov'; nlinarith
+      refine ⟨by rw [e3, e2, h2x], ?_, Or.inr ?_⟩
+      · rw [e2, habs, hmul, abs_abs]
+        have : L.stretch * s2.h ≤ L.stretch * P.hmax := mul_le_mul_of_nonneg_left h2h.2 (by linarith)
+        exact le_of_lt (lt_of_lt_of_le hlt this)
+      · rw [e3, hmul, hdist]
+        have e : P.direction * (P.direction * (P.xend - s2.x)) = P.xend - s2.x := by rw [← mul_assoc, hd, one_mul]
+        rw [e]; ring
+  · injection hl with hl
+    have e2 : hS = P.direction * s2.h := by have := congrArg (fun t => t.2.1) hl; exact this.symm
+    have e3 : xN = s2.x + P.direction * s2.h := by have := congrArg (fun t => t.2.2) hl; exact this.symm
+    have hle : |hS| ≤ P.hmax := by rw [e2, habs, abs_of_pos h2h.1]; exact h2h.2
+    refine ⟨by rw [e3, e2, h2x], ?_, Or.inl hle⟩
+    have : P.hmax ≤ L.stretch * P.hmax := by nlinarith
+    exact le_trans hle this
+
+end
+end BdfCtl
